@@ -22,7 +22,8 @@ H2Protocol / stream classes on the virtual-time asyncio loop and on instrumented
           CONTINUATION / padding / priority / plain and extended CONNECT / non-ASCII path, DATA +-END_STREAM
           +-padding, trailers, RST_STREAM on open and closed streams, WINDOW_UPDATE on connection / open / closed
           stream, PRIORITY before HEADERS / on idle parents / self-dependency, SETTINGS window 0 / 1 / 2^20, PING,
-          GOAWAY, unknown frame type, release of a gated application); depth 3 (quick) / 4 (thorough).
+          GOAWAY, unknown frame type, release of a gated application); depth 3 (quick) / 5 (thorough) on asyncio,
+          2 / 4 on trio.
 
 Oracle clauses
   handler-exception / loop-exception-handler
@@ -125,8 +126,8 @@ def scenarios(tier: str) -> List[Any]:
         for odd in ODDITIES:
             for arr in ("sib_first", "sib_after"):
                 out.append(("odd", engine, odd, arr))
-        depth = {("quick", "asyncio"): 3, ("quick", "trio"): 2, ("thorough", "asyncio"): 4,
-                 ("thorough", "trio"): 3}[(tier, engine)]
+        depth = {("quick", "asyncio"): 3, ("quick", "trio"): 2, ("thorough", "asyncio"): 5,
+                 ("thorough", "trio"): 4}[(tier, engine)]
         nroot = 2 if depth >= 4 else 1
         for root in grammar_roots(tier, nroot):
             out.append(("gram", engine, depth, tuple(root), tier))
@@ -563,6 +564,22 @@ def gram_run(engine: str, tier: str, history: List[tuple], verbose: bool = False
 # driver
 
 
+_SEEN: set = set()  # (clause, key) this worker process has already handed to the explorer
+
+
+def _fresh(violations: List[dict]) -> List[dict]:
+    """Each worker process reports every (clause, key) once: the framework caps the number of violation records
+    it carries (400 per scenario, 2000 per run); without this a frequent violation would crowd out a rare one.
+    Every key that occurs anywhere is still reported by the first process that meets it."""
+    out = []
+    for v in violations:
+        k = (v["clause"], v["key"])
+        if k not in _SEEN:
+            _SEEN.add(k)
+            out.append(v)
+    return out
+
+
 def _account(res: dict, r: ExecResult, params: Any, case: Any) -> None:
     res["executions"] += 1
     res["digests"].add(r.digest)
@@ -570,15 +587,19 @@ def _account(res: dict, r: ExecResult, params: Any, case: Any) -> None:
         res["nontrivial"].add(r.digest)
     for s in r.sigs:
         res["sigs"].add(hash(s))
-    for v in r.violations:
-        if len(res["violations"]) < 400:
-            res["violations"].append({**v, "params": params, "history": [case]})
+    for v in _fresh(r.violations):
+        res["violations"].append({**v, "params": params, "history": [case]})
 
 
 def explore_item_custom(params: tuple, tier: str, deadline: float) -> dict:
     kind = params[0]
     if kind == "odd":
-        return explore_item(execute, params, bounds(tier, params), deadline)
+        def execute_fresh(p: Any, prefix: List[int]) -> ExecResult:
+            r = execute(p, prefix)
+            r.violations = _fresh(r.violations)
+            return r
+
+        return explore_item(execute_fresh, params, bounds(tier, params), deadline)
     if kind == "gram":
         _, engine, depth, root, gtier = params
         count = [0]
@@ -588,7 +609,7 @@ def explore_item_custom(params: tuple, tier: str, deadline: float) -> dict:
             if count[0] % 200 == 0:
                 gc.collect()
             canon, viol, ops, _ = gram_run(engine, gtier, history)
-            return canon, viol, ops
+            return canon, _fresh(viol), ops
 
         res = bfs(run, depth - len(root), deadline, roots=[list(root)])
         for v in res["violations"]:
